@@ -86,6 +86,16 @@ func SignViaServer(h http.Handler, r SignReq) error {
 	if r.Hash != 0 {
 		values.Add("digest", x509tools.HashNames[r.Hash])
 	}
+	for i := 0; i < r.PriorAttempts; i++ {
+		// buildRequest of an attempt that ends in a temporary failure
+		s, err := transform.GetReader()
+		if err != nil {
+			return err
+		}
+		if _, err := io.Copy(io.Discard, s); err != nil {
+			return err
+		}
+	}
 	stream, err := transform.GetReader()
 	if err != nil {
 		return err
